@@ -1,2 +1,45 @@
-From SV Require Import Simfile.
-Theorem C04_placeholder : True. Proof. exact I. Qed.
+(* C04 - Load, save, load loses nothing; a second save changes nothing.  Statements only. *)
+From Coq Require Import List NArith ZArith Bool.
+From SV Require Import Sx Str Omap Msd Simfile Proofs.MsdFacts Proofs.SmRoundTrip Proofs.SscRoundTrip Proofs.LoadFacts.
+Import ListNotations.
+Open Scope N_scope.
+
+(* whatever loads is well-formed: unique upper-case keys, stripped chart fields (upper and strip are idempotent) *)
+Theorem C04_loaded_wf_sm : forall strict t sf, load_sm strict t = LOk sf -> wf_sm sf.
+Proof. exact loaded_sm_wf. Qed.
+Print Assumptions C04_loaded_wf_sm.
+Theorem C04_loaded_wf_ssc : forall strict t sf, load_ssc strict t = LOk sf ->
+  (forall c, List.In c (ssc_charts sf) -> exists nv, get (notes_key c) c = Some nv) -> wf_ssc sf.
+Proof. exact loaded_ssc_wf. Qed.
+Print Assumptions C04_loaded_wf_ssc.
+
+(* so it can always be serialised (SM: ser_sm is a total function) ... *)
+Theorem C04_serializable_ssc : forall strict t sf, load_ssc strict t = LOk sf ->
+  (forall c, List.In c (ssc_charts sf) -> exists nv, get (notes_key c) c = Some nv) -> exists out, ser_ssc sf = Some out.
+Proof.
+  intros strict t sf H Hn. apply ssc_serializable. intros c Hc. destruct (loaded_ssc_wf strict t sf H Hn) as [_ _ W]. auto.
+Qed.
+Print Assumptions C04_serializable_ssc.
+
+(* ... and loading that output gives the same simfile; a second save is byte-for-byte the first *)
+Theorem C04_reload_sm : forall strict strict' t sf, load_sm strict t = LOk sf -> safe_sm sf = true ->
+  load_sm strict' (ser_sm sf) = LOk sf.
+Proof. intros. apply sm_roundtrip; [eapply loaded_sm_wf; eauto|assumption]. Qed.
+Print Assumptions C04_reload_sm.
+
+Theorem C04_reload_ssc : forall strict strict' t sf, load_ssc strict t = LOk sf ->
+  (forall c, List.In c (ssc_charts sf) -> exists nv, get (notes_key c) c = Some nv) -> safe_ssc sf = true ->
+  exists out, ser_ssc sf = Some out /\ load_ssc strict' out = LOk (notes_last sf).
+Proof. intros. apply ssc_roundtrip; [eapply loaded_ssc_wf; eauto|assumption]. Qed.
+Print Assumptions C04_reload_ssc.
+
+Theorem C04_upper_strip_idempotent : forall s, upper (upper s) = upper s /\ strip (strip s) = strip s.
+Proof. intro s. split; [apply upper_idem|apply strip_idem]. Qed.
+Print Assumptions C04_upper_strip_idempotent.
+
+Example C04_example :
+  let t := [35;116;105;116;108;101;59;10;35;97;116;116;97;99;107;115;59;35;78;79;84;69;83;58;97;58;98;58;99;58;100;58;101;58;32;48;48;10;58;120;59] in
+  match load_sm true t with
+  | LOk sf => safe_sm sf && match load_sm true (ser_sm sf) with LOk sf2 => str_eqb (ser_sm sf2) (ser_sm sf) | _ => false end
+  | _ => false end = true.
+Proof. vm_compute. reflexivity. Qed.
